@@ -27,7 +27,9 @@ where
     asset.seek(SeekFrom::Start(0))?;
 
     let bank = match emulator.controller.memory.get_page(SCREEN_ADDR) {
-        Page::Ram(page) => page,
+        // Picture must go to the screen which is displayed, on 128K it may be the
+        // shadow screen (bank 7) instead of the bank mapped at 0x4000
+        Page::Ram(_) => emulator.controller.screen_bank(),
         Page::Rom(_) => {
             // Machine with such memory map is not implemented yet
             return Err(ScreenLoadError::MachineNotSupported.into());
